@@ -179,6 +179,11 @@ func init() {
 			{"(def k 5)", "(defmacro mk (fn [] k))", "(def f (fn [] (mk)))", "(def r1 (f))", "(def k 50)", "(list r1 (f) (t! (f)))"},
 			{"(defmacro m2 (fn [] 1))", "(def g (fn [] (t! (m2))))", "(def r1 (g))", "(defmacro m2 (fn [] 2))", "(list r1 (g))"},
 			{"(def a (atom 0))", "(defmacro ma (fn [] (swap! a inc)))", "(def h (fn [] (ma)))", "(list (h) (h) (t! (deref a)))"},
+			// an unquote of a deref in a template (printed and read back it must not become a splice), and a
+			// failed future that is the value of a top-level form (the REPL prints it) and is dereferenced again
+			{"(def a (atom 41))", "(defmacro md (fn [] (quasiquote (+ 1 (unquote (deref a))))))", "(def y (md))", "(list y (quote (unquote (deref q))))"},
+			{"(def job (future (throw \"boom\")))", "(def x (try (deref job) (catch e (str \"first: \" e))))", "job", "(def y (try (deref job) (catch e (str \"again: \" e))))", "(list x y)"},
+			{"(def job (future 7))", "(deref job)", "job", "(str job)", "(def y (deref job))", "y"},
 			{"(def k 1)", "(defmacro mq (fn [v] (list (quote +) v k)))", "(def f (fn [v] (mq v)))", "(def x (f 1))", "(def k 10)", "(def y (f 1))", "(list x y)"},
 		}
 		nFixed := int64(len(fixedProgs))
@@ -217,7 +222,7 @@ func init() {
 		}
 		fam := &vf.Family{
 			Name:   "programs-x-layouts-x-routes",
-			Bounds: fmt.Sprintf("programs: every sequence of 2 top-level forms, each a core-form program of weight <=2 (thorough: also every sequence of 3 weight-1 forms) (C01 grammar + throw, (t! x), a string, a string containing TAB and CR, a map literal), and every template macro (C12 code grammar, weight <=2, thorough <=3; the expander logs an effect) defined in one top-level form and called in two further ones over every pair of 7 operands, and 4 programs in which the expansion of one call site changes between two evaluations (expander reading a global / an atom, macro redefined); %d layouts (single line, form per line, comments between all tokens, blank lines, CRLF, no final newline, trailing comment without newline, tabs + leading comment); routes: READ with module, READ with nil cursor, cursor-free AST built from Go, READ(PRINT(ast)), forms one by one through REPL (named cursor / nil cursor), one wrapping do, load-file from a file", len(c19Layouts)),
+			Bounds: fmt.Sprintf("programs: every sequence of 2 top-level forms, each a core-form program of weight <=2 (thorough: also every sequence of 3 weight-1 forms) (C01 grammar + throw, (t! x), a string, a string containing TAB and CR, a map literal), and every template macro (C12 code grammar, weight <=2, thorough <=3; the expander logs an effect) defined in one top-level form and called in two further ones over every pair of 7 operands, and 7 programs in which the expansion of one call site changes between two evaluations (expander reading a global / an atom, macro redefined); %d layouts (single line, form per line, comments between all tokens, blank lines, CRLF, no final newline, trailing comment without newline, tabs + leading comment); routes: READ with module, READ with nil cursor, cursor-free AST built from Go, READ(PRINT(ast)), forms one by one through REPL (named cursor / nil cursor), one wrapping do, load-file from a file", len(c19Layouts)),
 			Setup:  setup,
 			N:      func(t string) int64 { tier = t; return size() },
 			Describe: func(i int64) string {
